@@ -176,7 +176,7 @@ func (c *Ctx) Exec(id string, nontrivial bool, f func() Verdict) {
 		c.P.Evaluations++
 		c.P.Capped = true
 		c.P.CapNote = "a case did not return (hang); this worker stopped enumerating after it"
-		v = Verdict{OK: false, Detail: fmt.Sprintf("HANG: the case did not return within %v of CPU time (cases of this check normally take milliseconds)", c.CaseTimeout)}
+		v = Verdict{OK: false, Detail: fmt.Sprintf("HANG: the case did not return within %v (CPU time of the case for limits below 5 minutes, wall-clock otherwise; cases of this check normally take milliseconds)", c.CaseTimeout)}
 		rec := ViolationRec{CaseID: id, Detail: v.Detail}
 		rec.Replay = c.writeReplay(id, v)
 		c.P.Violations = append(c.P.Violations, rec)
@@ -268,6 +268,19 @@ func (c *Ctx) Exec(id string, nontrivial bool, f func() Verdict) {
 func withWatchdog(f func() Verdict, d time.Duration) (v Verdict, hung bool) {
 	if d <= 0 {
 		return safely(f), false
+	}
+	if d >= 5*time.Minute {
+		// long limits (scheduler scenarios, soak histories) are generous wall-clock limits; the case
+		// is NOT pinned to a thread (pinning makes every goroutine hand-off of the scheduler an OS
+		// thread switch: 4x slower)
+		ch := make(chan Verdict, 1)
+		go func() { ch <- safely(f) }()
+		select {
+		case v = <-ch:
+			return v, false
+		case <-time.After(d):
+			return Verdict{}, true
+		}
 	}
 	ch := make(chan Verdict, 1)
 	tidCh := make(chan int, 1)
